@@ -26,7 +26,11 @@ def main(argv=None):
     fn = o.replay or o.fn
     out = {"args": args, "oracle": getattr(fn, "__name__", "?")}
     try:
-        diag = fn(*[args[k] for k in o.args])
+        if o.engine == "direct":
+            r = fn()
+            diag = r.get("diag", "violation") if r.get("verdict") == "violation" else ""
+        else:
+            diag = fn(*[args[k] for k in o.args])
         out["diag"] = diag if isinstance(diag, str) else repr(diag)
     except Exception as e:
         out["diag"] = "EXC %s: %s" % (type(e).__name__, e)
